@@ -4,8 +4,9 @@ CONSTANTS
   Vals = {0, 1}
   Kind = "ipv"
   MaxXs = 3
+  Mode = "valid"
 VIEW View
 ACTION_CONSTRAINT Emit
 INVARIANTS TypeOK CapInv OrderLaws
-PROPERTIES CapConst CopyIndependence CopyMakesEqual TryOnFull
+PROPERTIES ContractPartition CapConst CopyIndependence CopyMakesEqual TryOnFull
 CHECK_DEADLOCK FALSE
